@@ -6,7 +6,7 @@ META = {
     "technique": "static analysis: argument-role binding of the density-matrix stepper, polynomial normal form of "
                  "the Lindblad superoperator, sibling comparison of the device arms; flag-definition and branch mapping of the phase-free fast path; provenance of the noise model",
     "design_ref": "DESIGN.md §5 C16",
-    "explanation": "ROLE-sv: the density-matrix stepper and DensityMatrix state are selected together exactly when "
+    "explanation": "HAM-form (diagonal builders): RydbergLindbladian._create_diagonal and its state-vector sibling add interaction_matrix[i, j] for every i and every j > i unconditionally (no if/break/continue) to the slice with both qubits in level 1 (exponent sums i and j-1). DISPATCH-sv: jump operators present => density-matrix stepper and state. ROLE-sv: the density-matrix stepper and DensityMatrix state are selected together exactly when "
                    "the sequence has Lindblad operators; EvolveDensityMatrix.apply has the positional parameter "
                    "list the driver uses and forwards each parameter to RydbergLindbladian under the same role, "
                    "SequenceData.lindblad_ops included; krylov_exp is called with is_hermitian=False, the "
